@@ -325,6 +325,10 @@ class Tr:
             if isinstance(op, ast.GtE) and 'leb' in o:
                 return '(%s %s %s)' % (o['leb'], b2, a2)
             raise Unsupported('number comparison %s' % type(op).__name__)
+        if ta == 'nat' and tb == 'nat' and isinstance(op, (ast.Eq, ast.NotEq)):
+            # objects compared with == (no __eq__ defined: identity), modelled as numbers
+            eq = '(Nat.eqb %s %s)' % (a, b)
+            return eq if isinstance(op, ast.Eq) else '(negb %s)' % eq
         if ta in ('Z', 'intlit') and tb in ('Z', 'intlit'):
             a2 = self.coerce(a, ta, 'Z')
             b2 = self.coerce(b, tb, 'Z')
